@@ -72,6 +72,15 @@ MUTANTS = [
     ("seed used as upper bound", "AegeanTools/source_finder.py",
      "    if not np.any(a):",
      "    if not np.any(a) or np.all(snr < seed_clip / 2):", "C02-R6"),
+    ("last labelled group never visited", "AegeanTools/source_finder.py",
+     "    for i in range(n):\n        xmin, xmax = f[i][0].start",
+     "    for i in range(n - 1):\n        xmin, xmax = f[i][0].start", "C02-R8"),
+    ("cut-out one row short", "AegeanTools/source_finder.py",
+     "        xmin, xmax = f[i][0].start, f[i][0].stop\n        ymin, ymax = f[i][1].start, f[i][1].stop\n        # the pixels",
+     "        xmin, xmax = f[i][0].start, f[i][0].stop - 1\n        ymin, ymax = f[i][1].start, f[i][1].stop\n        # the pixels", "C02-R8"),
+    ("image blanked in place", "AegeanTools/source_finder.py",
+     "            data_box = copy.deepcopy(im[xmin:xmax, ymin:ymax])",
+     "            data_box = im[xmin:xmax, ymin:ymax]", "C02-R8"),
 ]
 TWINS = [
     ("structure literal", "AegeanTools/source_finder.py",
@@ -187,11 +196,25 @@ def run(ctx):
                   "the seed test must be strictly greater than the seed "
                   "threshold", node=c)
     # island mask
+    def other_label(p_):
+        """labels != id,  or the complement of the exact own-pixel mask"""
+        if isinstance(p_, ast.Compare) and len(p_.ops) == 1 and \
+                isinstance(p_.ops[0], ast.NotEq) and m.label_compare(p_):
+            return True
+        inner = None
+        if isinstance(p_, ast.UnaryOp) and isinstance(p_.op, ast.Invert):
+            inner = p_.operand
+        elif isinstance(p_, ast.Call) and p_.args and norm(p_.func) in (
+                "np.logical_not", "np.bitwise_not", "np.invert",
+                "numpy.logical_not"):
+            inner = p_.args[0]
+        return inner is not None and m.narrowing(inner) == []
     imask = None
     for s in ast.walk(m.loop):
         if isinstance(s, ast.Assign) and isinstance(s.value, ast.BinOp) and \
-                isinstance(s.value.op, ast.BitOr) and \
-                m.label_compare(s.value):
+                isinstance(s.value.op, ast.BitOr) and (
+                    m.label_compare(s.value) or
+                    other_label(s.value.left) or other_label(s.value.right)):
             imask = s
     ctx.check("C02-R2", fi, "per-island mask", imask is not None,
               "no per-island mask of the form (snr < flood) | "
@@ -203,9 +226,7 @@ def run(ctx):
               len(p.ops) == 1 and isinstance(p.ops[0], ast.Lt) and
               norm(p.comparators[0]) == flood_p and
               snr_views & names_in(p.left)]
-        ne = [p for p in parts if isinstance(p, ast.Compare) and
-              len(p.ops) == 1 and isinstance(p.ops[0], ast.NotEq) and
-              m.label_compare(p)]
+        ne = [p for p in parts if other_label(p)]
         ctx.check("C02-R2", fi, "island mask " + norm(imask, 100),
                   len(lt) == 1 and len(ne) == 1,
                   "the island mask must be exactly the complement of "
@@ -224,6 +245,7 @@ def run(ctx):
                                      norm(imask.targets[0]) for c in setm),
                   "the island's mask must be the per-island mask",
                   node=setm[0] if setm else m.loop)
+    r8_loop(ctx, prog, m)
     # ---------------------------------------------------------------- R3
     ctx.rule("C02-R3", "the seed test and the region pixel list are "
              "restricted to the island's own label, not the whole bounding "
@@ -447,3 +469,83 @@ def r5(ctx, prog):
                                       "the bounding box must be consumed as "
                                       "[rowlo:rowhi, collo:colhi]", node=sub)
     ctx.floor("C02-R5", n, 2, "consumer slices of bounding boxes")
+
+
+def r8_loop(ctx, prog, m):
+    """every labelled group is visited, over exactly its label-slice, on a
+    private copy of its pixels"""
+    fi = m.fi
+    ctx.rule("C02-R8", "every labelled group is visited with its exact "
+             "find_objects slice: the island loop runs over range(n) / "
+             "enumerate(boxes) for all n labels, the cut-out bounds are the "
+             "slice's start / stop (no arithmetic), the pixel values are "
+             "blanked on a COPY of the cut-out, the bounding-box offsets are "
+             "(row offset, column offset), and PixelIsland.set_mask stores "
+             "the mask it is given")
+    lp = m.loop
+    fn = norm(lp.iter.func)
+    if fn == "range":
+        a = lp.iter.args
+        ok = len(a) == 1 and norm(a[0]) == m.nlab or (
+            len(a) == 2 and norm(a[0]) == "0" and norm(a[1]) == m.nlab)
+        ctx.check("C02-R8", fi, "island loop " + norm(lp.iter), ok,
+                  "the loop must visit all %s labelled groups (labels are "
+                  "1..%s, the loop index 0..%s-1); found %s: the remaining "
+                  "groups are never reported" % (m.nlab, m.nlab, m.nlab,
+                                                 norm(lp.iter)), node=lp)
+    else:
+        ctx.ob("C02-R8", fi, "island loop " + norm(lp.iter), True, {}, lp)
+    # cut-out bounds
+    n = 0
+    for st in ast.walk(lp):
+        if not isinstance(st, ast.Assign):
+            continue
+        pairs = []
+        if isinstance(st.targets[0], ast.Tuple) and \
+                isinstance(st.value, ast.Tuple) and \
+                len(st.targets[0].elts) == len(st.value.elts):
+            pairs = list(zip(st.targets[0].elts, st.value.elts))
+        elif isinstance(st.targets[0], ast.Name):
+            pairs = [(st.targets[0], st.value)]
+        for t, v in pairs:
+            txt = norm(v)
+            if not (".start" in txt or ".stop" in txt):
+                continue
+            n += 1
+            ok = isinstance(v, ast.Attribute) and v.attr in ("start", "stop")
+            ctx.check("C02-R8", fi, "cut-out bound %s = %s" % (norm(t), txt),
+                      ok, "the bound must be the slice's own start / stop; "
+                      "arithmetic on it drops (or adds) a row / column of "
+                      "the island", node=st)
+    ctx.floor("C02-R8", n, 4, "cut-out bounds taken from the label slices")
+    # blanking happens on a copy
+    blank = [st for st in ast.walk(lp) if isinstance(st, ast.Assign) and
+             isinstance(st.targets[0], ast.Subscript) and
+             norm(st.value) in ("np.nan", "numpy.nan")]
+    for st in blank:
+        base = st.targets[0].value
+        defs = [d for d in ast.walk(lp) if isinstance(d, ast.Assign) and
+                norm(d.targets[0]) == norm(base)]
+        copied = bool(defs) and all(
+            isinstance(d.value, ast.Call) and (
+                norm(d.value.func) in ("copy.deepcopy", "copy.copy",
+                                       "np.copy", "np.array", "numpy.array",
+                                       "numpy.copy", "deepcopy") or
+                isinstance(d.value.func, ast.Attribute) and
+                d.value.func.attr in ("copy", "astype"))
+            for d in defs)
+        ctx.check("C02-R8", fi, "blanked array %s is a copy" % norm(base),
+                  copied, "%s is a view of the image: blanking it writes "
+                  "NaN into the image itself, so pixels of neighbouring "
+                  "groups inside the box vanish for the islands visited "
+                  "later (and for the fit)" % norm(base), node=st)
+    ctx.floor("C02-R8", len(blank), 1, "NaN-blanking statements in the loop")
+    # set_mask keeps its argument
+    sm = prog.func("models.PixelIsland.set_mask")
+    st = [x for x in walk_no_nested(sm.node) if isinstance(x, ast.Assign) and
+          norm(x.targets[0]) == "self.mask"]
+    ctx.check("C02-R8", sm, "set_mask stores its argument",
+              len(st) == 1 and len(sm.params) > 1 and
+              norm(st[0].value) == sm.params[1],
+              "PixelIsland.set_mask must store the given mask unchanged",
+              node=st[0] if st else sm.node)
